@@ -82,6 +82,37 @@ def run_case(case):
                 cls = "row-heights-reset" if "row_heights" in err else "col-widths" if "col_widths" in err else "other"
                 return {"detail": err, "class": cls}
             return {"ok": True, "count": n * sum(len(g["row_heights"]) + len(g["col_widths"]) + 9 for g in g0)}
+        if case.get("resize"):
+            # history on a LOADED fixture: a row height and a column width are set on EVERY table (pivot tables excepted: the library says it does
+            # not modify them), saved, reopened: each table shows what was set on it
+            reader, why = docsnap.open_quiet(case["resize"])
+            if reader is None or why == "unsupported-version":
+                return {"ok": True, "count": 1, "distinct": 0}
+            want = []
+            with warnings.catch_warnings():
+                warnings.simplefilter("ignore")
+                for si, s_ in enumerate(reader.sheets):
+                    for ti, t_ in enumerate(s_.tables):
+                        if reader._model.is_a_pivot_table(t_._table_id):
+                            continue
+                        r_, c_ = t_.num_rows - 1, t_.num_cols - 1
+                        h, w = 31 + 2 * ti + si, 71 + 3 * ti + si
+                        t_.row_height(r_, h)
+                        t_.col_width(c_, w)
+                        want.append((si, ti, r_, c_, h, w, t_.name))
+                p = os.path.join(td, "resized.numbers")
+                try:
+                    reader.save(p)
+                except Exception as e:  # noqa: BLE001
+                    return {"detail": f"{os.path.basename(case['resize'])}: saving after setting sizes raised {type(e).__name__}: {str(e)[:150]}", "class": "resize-loaded"}
+                d2 = Document(p)
+                for si, ti, r_, c_, h, w, name in want:
+                    t2 = d2.sheets[si].tables[ti]
+                    got = (t2.row_height(r_), t2.col_width(c_))
+                    if got != (h, w):
+                        return {"detail": f"{os.path.basename(case['resize'])}: table {name!r} (sheet {si}, table {ti} of {[x.name for x in d2.sheets[si].tables]}): row {r_} "
+                                          f"height / column {c_} width set to {(h, w)}, saved and reopened: reads {got}", "class": "resize-loaded"}
+            return {"ok": True, "count": 2 * len(want)}
         if case.get("loaded"):
             # history on a LOADED document that has stored borders: sizes are set without anything having been read first, then saved
             rnd = random.Random(case["seed"])
@@ -193,10 +224,14 @@ def main():
         for s in range(6 if big else 2):
             for q in (False, True):
                 cases.append({"set": g, "seed": a.seed * 100 + i * 10 + s, "query": q, "cycles": 2})
+    every = docsnap.fixtures()
+    pick = [f for f in every if os.path.basename(f) in ("test-pivot.numbers", "issue-73.numbers", "test-1.numbers", "test-9.numbers", "issue-69b.numbers")] if not big else every
+    for f in pick:
+        cases.append({"set": ["resize"], "resize": f, "seed": 0, "query": False, "cycles": 1})
     for s in range(8 if big else 3):
         for q in (False, True):
             cases.append({"set": ["loaded"], "loaded": "all" if s % 2 == 0 else "some", "seed": a.seed * 100 + 900 + s, "query": q, "cycles": 1})
-    return common.run(cases, run_case, key=lambda c: str(c.get("path") or c.get("set")) + str(c.get("query")) + str(c.get("seed")))
+    return common.run(cases, run_case, key=lambda c: str(c.get("path") or c.get("resize") or c.get("set")) + str(c.get("query")) + str(c.get("seed")))
 
 
 if __name__ == "__main__":
